@@ -404,14 +404,21 @@ func (lb *LoadBalancer) processHealthCheckResponse(backend *Backend, resp *http.
 
 	// If we get here, the backend is healthy
 	backend.Mutex.Lock()
+	// A probe that was in flight while the backend got ejected must not cut the
+	// unhealthy window short
+	if !backend.IsHealthy && time.Now().Before(backend.UnhealthyUntil) {
+		backend.Mutex.Unlock()
+		return
+	}
 	wasUnhealthy := !backend.IsHealthy
 	backend.IsHealthy = true
-	backend.Mutex.Unlock()
 
-	// Update metrics to reflect healthy status
+	// Update metrics to reflect healthy status (under the backend lock, so a concurrent
+	// ejection cannot be overwritten by this "healthy")
 	if lb.metricsCollector != nil {
 		lb.metricsCollector.UpdateBackendHealth(backend.Name, true)
 	}
+	backend.Mutex.Unlock()
 
 	if wasUnhealthy {
 		logging.L().Info().Str("backend", backend.Name).Msg("backend marked healthy via active check")
@@ -551,12 +558,13 @@ func (lb *LoadBalancer) IsBackendHealthy(backend *Backend) bool {
 		// Double-check after acquiring write lock to prevent race condition
 		if !backend.IsHealthy && time.Now().After(backend.UnhealthyUntil) {
 			backend.IsHealthy = true
-			backend.Mutex.Unlock()
 
-			// Update metrics to reflect healthy status
+			// Update metrics to reflect healthy status (under the backend lock, so a
+			// concurrent ejection cannot be overwritten by this "healthy")
 			if lb.metricsCollector != nil {
 				lb.metricsCollector.UpdateBackendHealth(backend.Name, true)
 			}
+			backend.Mutex.Unlock()
 
 			logging.L().Info().Str("backend", backend.Name).Msg("backend marked healthy")
 			return true
